@@ -17,6 +17,7 @@ package main
 import (
 	"fmt"
 	"os"
+	"runtime"
 	"time"
 
 	"github.com/fatedier/frp/pkg/nathole"
@@ -86,7 +87,7 @@ func main() {
 	nCases := rounds*len(combos) + extra
 	run.Set("combos", len(combos))
 	start := time.Now()
-	run.Parallel(nCases, 14, func(c *h.Case) {
+	one := func(c *h.Case) {
 		var cb combo
 		if c.Idx < rounds*len(combos) {
 			// interleave the slow heartbeat cases with the others
@@ -95,7 +96,19 @@ func main() {
 			cb = combos[c.Rng.Intn(len(combos))]
 		}
 		runCase(c, envs[cb.env], cb.kind, cb.path)
-	})
+	}
+	// The collector is off while cases run (a finalizer must not close what the server leaked). Between rounds no
+	// case is in progress, so the garbage of the finished round can be collected without masking anything.
+	for r := 0; r < rounds; r++ {
+		run.ParallelRange(r*len(combos), len(combos), 14, one)
+		if rounds > 2 {
+			runtime.GC()
+		}
+	}
+	run.ParallelRange(rounds*len(combos), extra, 14, one)
+	if rounds > 2 {
+		runtime.GC()
+	}
 	run.Set("fault_phase_seconds", int(time.Since(start).Seconds()))
 
 	// leak slopes run alone: process-wide goroutine and descriptor counts are theirs
